@@ -76,7 +76,7 @@ Next ==
                     /\ UNCHANGED <<seen, bad, nseq>> /\ nev' = nev + 1
               [] e.ev = "readback" ->
                     LET c == Judge(e) IN
-                    /\ bad' = IF c = {} \/ Len(bad) >= 400 THEN bad
+                    /\ bad' = IF c = {} THEN bad
                               ELSE Append(bad, [line |-> l, seq |-> nseq, complaints |-> SetToSeq(c)])
                     /\ seen' = Append(seen, e)
                     /\ UNCHANGED <<ref, alt, nseq, nev>>
